@@ -114,11 +114,13 @@ def codec_body(ctx, c):
         ctx.violation("codec-roundtrip-messages", "decoded %d messages; first difference at %s" % (
             len(gm), next((i for i, (a, b_) in enumerate(zip(gm, em)) if a != b_), "length")))
     # wrong direction must be refused by the header parser
+    wrong_side_ok = True
     try:
         PacketHeader.from_bytes(c["is_server"], b)
-        ctx.violation("codec-direction", "header accepted by the wrong side")
     except Exception:
-        pass
+        wrong_side_ok = False
+    if wrong_side_ok:
+        ctx.violation("codec-direction", "header accepted by the wrong side")
 
 
 def run_codec(spec, ctx):
